@@ -48,7 +48,7 @@ def _raw_cast(x, y, n_bits):
     # raw values are kept in numpy integers only if a raw result of `n_bits` bits fits in them exactly:
     # up to 64 bits for operands of equal signedness, up to 53 bits if they are mixed (numpy promotes int64 with uint64 to float64)
     if n_bits >= (_n_word_max if x.signed == y.signed else 53):
-        return lambda m: np.array(m, dtype=object)
+        return lambda m: np.asarray(m).astype(object)   # (astype also turns a numpy scalar, e.g. an indexed element, into a python integer)
     return lambda m: m
 
 def _get_sizing(vars, sizing, method, optimal_size=None):
